@@ -806,6 +806,9 @@ func prefixPieces(pre, s *T) (*T, bool) {
 		case x.Op == "uf" && x.Name == "dec" && y.Op == "uf" && y.Name == "dec" && nonDigitNext(a) && nonDigitNext(b):
 			cond = And(cond, Eq(x.Args[0], y.Args[0]))
 			a, b = a[1:], b[1:]
+		case x.Op == "uf" && x.Name == "dec" && y.Op == "uf" && y.Name == "dec" && len(a) == 1:
+			// the prefix ends inside a numeral: what remains is a prefix test between two numerals
+			return And(cond, mk("str.prefixof", BoolS, x, y)), true
 		default:
 			return nil, false
 		}
